@@ -83,7 +83,14 @@ def generate(tier, rng):
             # scipy-based models: judged by the oracle only (values are not exactly representable)
             real = [dict(kind="normal", mean=8, std=3), dict(kind="foldnorm", mean=6, std=4), dict(kind="lognormal", mean=10, std=5),
                     dict(kind="weibull", shape=2.5, scale=9)]
-            for lt in (real if tier == "thorough" or not extra else real[k % 4: k % 4 + 1]):
+            # parameters that depend on the cohort: each cohort keeps its own survival curve
+            span = float(grid[-1] - grid[0]) / max(n - 1, 1)
+            cohort = [dict(kind="normal", mean=dict(dims=["t"], values=[4 + 3 * span * i for i in range(n)]), std=dict(dims=["t"], values=[1.5 + (i % 3) for i in range(n)])),
+                      dict(kind="foldnorm", mean=dict(dims=["t"], values=[3 + 2.5 * span * i for i in range(n)]), std=dict(dims=["t"], values=[2 + ((2 * i) % 3) for i in range(n)])),
+                      dict(kind="lognormal", mean=dict(dims=["t"], values=[5 + 2 * span * i for i in range(n)]), std=dict(dims=["t"], values=[2 + (i % 2) * 3 for i in range(n)])),
+                      dict(kind="weibull", shape=dict(dims=["t"], values=[1.2 + 0.4 * (i % 4) for i in range(n)]), scale=dict(dims=["t"], values=[4 + 2.2 * span * i for i in range(n)]))]
+            real = real + (cohort if tier == "thorough" or not extra else cohort[k % 4: k % 4 + 1])
+            for lt in (real if tier == "thorough" or not extra else real[k % 4: k % 4 + 1] + real[-1:]):
                 drv = [rng.randint(0, 8) for _ in range(N)]
                 cases.append(dict(stream="tolerance", coq=False, cls="idsm", grid=grid, gname=gname, extra=extra, lifetime=lt, driver=drv))
                 cases.append(dict(stream="tolerance", coq=False, cls="sdsm", solver=["manual", "lapack"][k % 2], grid=grid, gname=gname,
